@@ -251,14 +251,63 @@ def run_case(ctx, case: dict) -> None:
         from ..harness import run as arun
         from .c12 import vanished_child_case
 
-        harness.CONFIG_EXTRA.clear()
-        harness.CONFIG_EXTRA.update(case.get("config_extra") or {})
-        try:
+        with harness.options(case.get("config_extra")):
             arun(vanished_child_case(ctx, case))
-        finally:
-            harness.CONFIG_EXTRA.clear()
+        return
+    if case.get("kind") == "latest-only":
+        from .. import harness
+        from ..harness import run as arun
+
+        with harness.options(case.get("config_extra")):
+            arun(latest_only_case(ctx, case))
         return
     replay_case(ctx, case)
+
+
+async def latest_only_case(ctx, case: dict) -> None:
+    from aiomysensors.model.message import Message
+
+    from ..harness import Stepper, exc_info, new_gateway
+
+    version, extra = case["version"], case.get("config_extra") or {}
+    gateway, transport = new_gateway(version)
+    stepper = Stepper(gateway, transport)
+    wake = "1;255;3;0;32;500\n" if version == "2.2" else "1;255;3;0;22;1\n"
+    lines = [f"1;255;0;0;17;{version}\n", "1;0;0;0;3;relay\n"]
+    if case["reported"] is not None:
+        lines.append(f"1;0;1;0;2;{case['reported']}\n")
+    lines.append(wake)
+    for line in lines:
+        kind, value = await stepper.rx(line)
+        if kind != "yield":
+            ctx.inconclusive.append(f"latest-only: set-up line {line!r} was not handled: {kind} {value!r:.80}")
+            return
+    transport.take_writes()
+    for payload in case["payloads"]:
+        kind, value = await stepper.tx(Message(1, 0, 1, 0, 2, payload))
+        if kind != "ok":
+            ctx.violation("send-raised-" + exc_info(value)["class"], f"send of set {payload!r} for a sleeping node raised "
+                          f"{value!r:.80}", case)
+            return
+    direct = transport.take_writes()
+    kind, value = await stepper.rx(wake)
+    released = [w for w in transport.take_writes() if w.startswith("1;0;1;")]
+    await stepper.close()
+    latest = f"1;0;1;0;2;{case['payloads'][-1]}\n"
+    ctx.case(("latest-only", version, case["reported"], tuple(case["payloads"]), repr(sorted(extra.items()))), nontrivial=True,
+             sample={"case": case, "released": released})
+    ctx.clause("latest-only")
+    if direct:
+        ctx.violation("written-while-asleep", f"sets for a sleeping node were written before it woke: {direct}", case)
+    stale = [w for w in released if w != latest]
+    if stale:
+        ctx.violation("stale-value-released", f"the node reported {case['reported']!r}, sets {case['payloads']} were sent "
+                      f"while it slept, the wake released {released} - the newest is {latest!r}", case)
+    elif released != [latest] and not extra:
+        ctx.violation("latest-not-released", f"sets {case['payloads']} were sent while the node slept, the wake released "
+                      f"{released}", case)
+    elif released != [latest]:
+        ctx.obs("latest-only:not-released-under-unknown-option")
 
 
 def release_despite_stale_neighbours(ctx) -> None:
@@ -282,13 +331,22 @@ def release_despite_stale_neighbours(ctx) -> None:
                 index += 1
                 if not ctx.mine(index):
                     continue
-                harness.CONFIG_EXTRA.clear()
-                harness.CONFIG_EXTRA.update(extra)
-                try:
+                with harness.options(extra):
                     arun(vanished_child_case(ctx, {"kind": "vanished-child", "version": version, "how": how,
                                                    "stale_first": stale_first, "config_extra": extra}))
-                finally:
-                    harness.CONFIG_EXTRA.clear()
+    # the newest command wins whatever the node last REPORTED: sends whose payload equals the reported value, an earlier
+    # send's value or nothing known, in every order of three - an older payload is never what the wake releases
+    index = 0
+    for extra in [{}, *harness.unknown_options()]:
+        for version in ("2.0", "2.1", "2.2"):
+            for reported in ("0", None):
+                for payloads in itertools.product(("0", "1", "2"), repeat=3):
+                    index += 1
+                    if not ctx.mine(index):
+                        continue
+                    with harness.options(extra):
+                        arun(latest_only_case(ctx, {"kind": "latest-only", "version": version, "reported": reported,
+                                                    "payloads": list(payloads), "config_extra": extra}))
 
 
 def run(ctx) -> None:
